@@ -181,6 +181,9 @@ class PolicyInCache(Slice):
             tag = rng.randrange(assoc + 2)
             a = C.DATA + tag * stride + st * (1 << bb) * 4
             ops.append([0, 32, a, 1] if rng.random() < 0.8 else [1, 32, a, rng.getrandbits(32), 0])
+        if rng.random() < 0.3:
+            # reset() in mid-history: every set starts again from the initial policy state
+            ops.insert(rng.randrange(1, len(ops) + 1), [2])
         return {"cfg": cfg, "preload": [], "ops": ops}
 
     def run(self, case, model):
@@ -192,6 +195,20 @@ class PolicyInCache(Slice):
         tags = [[None] * cfg[2] for _ in range(nsets)]
         findings, cl = [], {"plru" if cfg[3] else "lru", "sets:%d" % nsets}
         for k, op in enumerate(ops):
+            if op[0] == 2:
+                C.apply_op(ms, op)
+                hist = [[] for _ in range(nsets)]
+                tags = [[None] * cfg[2] for _ in range(nsets)]
+                if k + 1 < len(ops):
+                    cl.add("reset")
+                for j, cs in enumerate(ms.cache.sets):
+                    want_v = ref_plru(cfg[2], []) if cfg[3] else ref_lru_victim(cfg[2], [])
+                    if cs.replacement_strategy.get_next_to_replace() != want_v or any(b.valid_bit for b in cs.blocks):
+                        findings.append(("violation", f"op {k}: after reset() set {j} is not in the initial state (would replace way {cs.replacement_strategy.get_next_to_replace()}, valid bits {[b.valid_bit for b in cs.blocks]})"))
+                        break
+                if findings:
+                    break
+                continue
             full = op[2] % 2 ** 32
             tag = full >> (cfg[0] + cfg[1] + 2)
             st = (full >> (cfg[1] + 2)) & (nsets - 1)
@@ -221,7 +238,7 @@ class PolicyInCache(Slice):
             if mt and C.directory(ms)[0] != [[ [list(b) if isinstance(b, list) else b for b in blocks], list(rep)] for blocks, rep in mt[-1][2][0]]:
                 d = C.first_diff(C.directory(ms)[0], mt[-1][2][0], "directory")
                 findings.append(("disagreement", f"final directory differs from the model: {d}"))
-        if len({(o[2] >> (cfg[1] + 2)) & (nsets - 1) for o in ops}) > 1:
+        if len({(o[2] >> (cfg[1] + 2)) & (nsets - 1) for o in ops if o[0] != 2}) > 1:
             cl.add("multi-set")
         return findings[:2], cl
 
@@ -229,7 +246,7 @@ class PolicyInCache(Slice):
         return "eviction" in classes and "multi-set" in classes
 
     def required_classes(self, tier):
-        return ["lru", "plru", "eviction", "multi-set"]
+        return ["lru", "plru", "eviction", "multi-set", "reset"]
 
     def shrink(self, case):
         ops = case["ops"]
